@@ -5,6 +5,7 @@ import (
 	"strings"
 	"testing"
 
+	distiller "github.com/markusmobius/go-domdistiller"
 	"golang.org/x/net/html"
 	"pgregory.net/rapid"
 )
@@ -222,12 +223,25 @@ func checkC06(c *Case) (*Violation, caseInfo) {
 		info.Skip = "no-page-url"
 		return nil, info
 	}
-	_, out := applyHTML(c.HTML, c.Opts)
-	if out.Panicked || out.Err != nil || out.Res == nil {
-		info.Skip = "apply-failed"
-		return nil, info
+	// The same Options value (one *url.URL) is used for two consecutive calls, as a caller would
+	// reuse it; the expectations always refer to the URL as it was supplied.
+	opts := c.Opts.Build()
+	var outs []callOutcome
+	for call := 0; call < 2; call++ {
+		doc, perr := html.Parse(strings.NewReader(c.HTML))
+		if perr != nil {
+			info.Skip = "parse-failed"
+			return nil, info
+		}
+		o := guarded(0, func() (*distiller.Result, error) { return distiller.Apply(doc, opts) })
+		if o.Panicked || o.Err != nil || o.Res == nil {
+			info.Skip = "apply-failed"
+			return nil, info
+		}
+		outs = append(outs, o)
 	}
 	var viol *Violation
+	callNo := 0
 	forms := map[string]bool{}
 	carriers := map[string]bool{}
 	relForm := func(f string) bool {
@@ -258,8 +272,8 @@ func checkC06(c *Case) (*Violation, caseInfo) {
 			carriers[carrier] = true
 		}
 		if val != want && viol == nil {
-			viol = violationf("C06 wrong-url carrier="+carrier+" form="+form,
-				"%s value %q (reference form %s) should be %q for page URL %s", carrier, val, form, want, c.Opts.URL)
+			viol = violationf("C06 wrong-url carrier="+carrier+" form="+form+[]string{"", " second-call"}[callNo],
+				"%s value %q (reference form %s) should be %q for page URL %s (call %d with the same Options)", carrier, val, form, want, c.Opts.URL, callNo+1)
 		}
 	}
 	var rec func(n *html.Node, ctx string)
@@ -308,10 +322,11 @@ func checkC06(c *Case) (*Violation, caseInfo) {
 			rec(ch, ctx)
 		}
 	}
-	rec(out.Res.Node, "text")
-	for i, u := range out.Res.ContentImages {
-		_ = i
-		checkVal(u, "ContentImages")
+	for callNo = 0; callNo < 2; callNo++ {
+		rec(outs[callNo].Res.Node, "text")
+		for _, u := range outs[callNo].Res.ContentImages {
+			checkVal(u, "ContentImages")
+		}
 	}
 	info.Classes = dedup(info.Classes)
 	info.NonTrivial = len(forms) >= 3 && len(carriers) >= 3 && carriers["a@text"]
